@@ -20,6 +20,11 @@ fn main() {
             println!("selftest: {} compliance cases through the reference model, {} failures", r.total, r.failures.len());
             std::process::exit(if r.failures.is_empty() { 0 } else { 2 });
         }
+        "c05-child" => {
+            let depth: usize = args.get(2).and_then(|s| s.parse().ok()).unwrap_or(16);
+            jmv::props::c05::child_main(args.get(1).map(|s| s.as_str()).unwrap_or("not"), depth);
+            std::process::exit(0);
+        }
         "replay" => {
             if args.len() < 2 {
                 usage();
